@@ -219,6 +219,35 @@ func TestVerifC08(t *testing.T) {
 			}
 		}
 	}
+	// ... and the same holes in front of a second processor that answers SHORT once at one record: the retried tail then
+	// spans the hole (a record filtered / dead-lettered by the first processor lies physically inside the retried range)
+	shortN := []int{4, 5}
+	if verifkit.Thorough() {
+		shortN = []int{4, 5, 6}
+	}
+	for _, n := range shortN {
+		for _, hole := range []string{"f", "e"} {
+			if hole == "e" && n > 4 && !verifkit.Thorough() {
+				continue
+			}
+			for _, v := range kindVectors(n, []string{"p", hole}) {
+				if !strings.Contains(strings.Join(v, ""), hole) {
+					continue
+				}
+				for at := 0; at < n; at++ {
+					if v[at] != "p" {
+						continue // the second processor never sees this record
+					}
+					s2 := make([]string, n)
+					for i := range s2 {
+						s2[i] = "p"
+					}
+					s2[at] = "s"
+					cases = append(cases, c08Case{Engine: "v2", N: n, Stage1: v, Stage2: s2, Dests: 1})
+				}
+			}
+		}
+	}
 	// a processor with a condition: every subset of non-matching records x result kinds of the matching ones (short
 	// output included), alone and in front of a second processor
 	condN := []int{2, 3}
